@@ -38,7 +38,7 @@ class Chooser:
         return [p[1] for p in self.points]
 
 
-def explore(run, bound=None, max_execs=None, on_exec=None, shard=None):
+def explore(run, bound=None, max_execs=None, on_exec=None, shard=None, expand=None):
     """run(chooser) -> result.  Yields (choices, result) for every execution.
 
     bound None: all sequences (the run function must bound its own depth).
@@ -58,6 +58,9 @@ def explore(run, bound=None, max_execs=None, on_exec=None, shard=None):
             yield ch, result
         if max_execs is not None and n_exec >= max_execs:
             return
+        if expand is not None and not expand(ch, result):
+            root = False
+            continue          # the harness asks not to branch below this execution (e.g. it already fails)
         pts = ch.points
         spent = 0
         prefix_cost = []
